@@ -41,6 +41,9 @@ CHECKS["C04"] = ("exploration", "per-commit serializability rule + dependency-gr
 CHECKS["C20"] = ("exploration", "directed two-thread preemption at hooked yield points + chaos-delay multi-thread stress, judged by post-quiescence invariant walkers, conservation counters and a progress watchdog",
   "Every hooked window between two critical sections of an operation (node/label/property/edge updates, triple insert/remove, buffer allocation, transaction begin) is exercised deterministically: thread A is parked in the window, thread B runs a conflicting operation to completion, A resumes, then every derived structure is compared with the primary data. 4-16 thread stress mixes with seeded delays at the same sites check id uniqueness, lost acknowledged creations, index agreement, commit-epoch uniqueness/monotonicity, grant conservation, panics and deadlocks.",
   "One preemption per scenario at hooked sites only; other schedules are sampled; data races/UB are left to the TSan/Miri overlays (thorough).", "DESIGN.md §4 C20")
+CHECKS["C13"] = ("exploration", "triple-set reference model checked after every store operation + reference SPARQL evaluator differential, mismatches shrunk to skeleton signatures",
+  "Random histories of insert/remove/clear/transaction-buffer operations on the real RdfStore (both object-index settings) are compared after every operation with a set-of-triples model on all eight lookup shapes, len/stats/contains and the ring index; random SPARQL queries (BGP joins incl. repeated variables, FILTER, OPTIONAL, UNION, DISTINCT, ORDER/LIMIT/OFFSET, COUNT/GROUP BY, INSERT/DELETE DATA, DELETE WHERE, CLEAR) run through execute_sparql are compared with an independent reference evaluator; a directed transaction matrix covers SPARQL inside session transactions.",
+  "Term universe of about a dozen terms and <= 16 triples per query case; only the generated SPARQL core; ORDER BY judged only where SPARQL defines the order.", "DESIGN.md §4 C13")
 NOT_YET = {}
 
 def main():
